@@ -763,7 +763,7 @@ func c13TagStreams(aux *c13Aux, c *Case) map[string]uint32 {
 
 func init() {
 	register(&CheckDef{ID: "C13", Level: "exploration", Engine: "A", Draw: drawC13,
-		Rule: "a raw-frame HTTP/2 client first puts one stream into each state (half-closed (remote) with the handler parked in the back-end, open with a partial body, closed by a client RST_STREAM; idle ids above), so that the server-side state is determined by the client's frames alone, then sends 1-4 probes drawn from a catalogue of 47 (state, frame) situations - 14 legal ones that must never draw an error (unknown frame types and settings, PING, PRIORITY / WINDOW_UPDATE / RST_STREAM on closed streams, padded and empty DATA, trailers, CONTINUATION with padding and priority), 18 stream-level violations (frames on half-closed / reset streams, zero and overflowing WINDOW_UPDATE, self-dependency, malformed requests of 9 kinds, content-length mismatch, ...), 15 connection-level violations (even / reused ids, a header block both malformed and truncated, frames on idle streams, stream-0 / non-0 association, wrong lengths, out-of-range SETTINGS, PUSH_PROMISE, broken CONTINUATION sequences, undecodable header block, oversized frame), plus two special scenarios (first frame not SETTINGS; 251 parked streams against the advertised limit of 250) and, in 15% of the runs, a client GOAWAY(NO_ERROR) after the set-up, so that the probes meet a connection in graceful shutdown (a connection error then shows as an error GOAWAY or as the connection torn down under the parked request); then a closing request (must be served) or a request after the connection error (must not be). Frame delivery order relative to handlers is the controller's. Oracle (refh2sm, from RFC 7540/9113): reaction in the admissible set; handler started iff required; GOAWAY last-stream-id covers every request acted on; legal traffic draws no error. Non-trivial: the server answered at least one frame. Distinct: distinct controller action-label sequences."})
+		Rule: "a raw-frame HTTP/2 client first puts one stream into each state (half-closed (remote) with the handler parked in the back-end, open with a partial body, closed by a client RST_STREAM; idle ids above; 15%: -timeout-http-idle 2s and a pause of 2.1-9 s right after this set-up, the connection not being idle), so that the server-side state is determined by the client's frames alone, then sends 1-4 probes drawn from a catalogue of 47 (state, frame) situations - 14 legal ones that must never draw an error (unknown frame types and settings, PING, PRIORITY / WINDOW_UPDATE / RST_STREAM on closed streams, padded and empty DATA, trailers, CONTINUATION with padding and priority), 18 stream-level violations (frames on half-closed / reset streams, zero and overflowing WINDOW_UPDATE, self-dependency, malformed requests of 9 kinds, content-length mismatch, ...), 15 connection-level violations (even / reused ids, a header block both malformed and truncated, frames on idle streams, stream-0 / non-0 association, wrong lengths, out-of-range SETTINGS, PUSH_PROMISE, broken CONTINUATION sequences, undecodable header block, oversized frame), plus two special scenarios (first frame not SETTINGS; 251 parked streams against the advertised limit of 250) and, in 15% of the runs, a client GOAWAY(NO_ERROR) after the set-up, so that the probes meet a connection in graceful shutdown (a connection error then shows as an error GOAWAY or as the connection torn down under the parked request); then a closing request (must be served) or a request after the connection error (must not be). Frame delivery order relative to handlers is the controller's. Oracle (refh2sm, from RFC 7540/9113): reaction in the admissible set; handler started iff required; GOAWAY last-stream-id covers every request acted on; legal traffic draws no error. Non-trivial: the server answered at least one frame. Distinct: distinct controller action-label sequences."})
 }
 
 func laterExplains(ps []*probe, i int, connCode uint32) bool {
